@@ -168,7 +168,7 @@ def gen_grid(r, model, target_events=None, uniform=True, vol=None, npts=None):
 
 
 # ------------------------------------------------------------------ delays
-def add_delays(r, model, dt, horizon, p=0.6, far=False, delayed_reactants=False, markers=False):
+def add_delays(r, model, dt, horizon, p=0.6, far=False, delayed_reactants=False, markers=False, context=None):
     """Decorate reactions with delayed parts. Delay scale from dt/50 to 3x horizon (far: up to 1e12)."""
     species = model["species"]
     any_delay = False
@@ -210,7 +210,7 @@ def add_delays(r, model, dt, horizon, p=0.6, far=False, delayed_reactants=False,
             # other reaction consumes it
             free = [s for s in species if not any(
                 s in o["reactants"] or (o.get("delay") and s in (o["delay"].get("reactants") or []))
-                for o in model["reactions"])]
+                for o in (context if context is not None else model["reactions"]))]
             if free:
                 mk = r.choice(free)
                 prods.append(mk)
@@ -334,7 +334,8 @@ def bounded(model):
     (such networks explode and a run would not finish within any reasonable event cap)."""
     for rxn in model["reactions"]:
         imm, dly = rm.stoich_columns(rxn)
-        total = sum(imm.values()) + sum(dly.values())
+        # delay simulators apply the immediate part first: it must not grow the total either (transient autocatalysis)
+        total = max(sum(imm.values()) + sum(dly.values()), sum(imm.values()))
         if total <= 0:
             continue
         if rxn["type"] == "massaction" and not rxn["reactants"]:
